@@ -290,6 +290,10 @@ class BaseInterpolatablePreProcessor:
             _GlyphSet.from_layer(ufo, layerName, copy=not inplace)
             for ufo, layerName in zip_strict(ufos, layerNames)
         ]
+        # the instantiator was built on the source layers: make it interpolate the
+        # (copied) glyph sets from the start, or filters that fetch glyphs through
+        # it would read - and modify - the caller's source glyphs
+        self._update_instantiator()
         if skipExportGlyphs:
             from ufo2ft.filters.skipExportGlyphs import SkipExportGlyphsIFilter
 
